@@ -92,51 +92,88 @@ func minimise(orig *Program, rp *Replay) *Replay {
 		}
 	}
 
-	// 5. program: drop whole files, dependency files, packages
-	for changed := true; changed; {
-		changed = false
-		for _, name := range p.FileNames() {
-			q := p.Clone()
-			delete(q.Files, name)
-			q.Packages = packagesWithFiles(q)
-			if len(q.Packages) == 0 {
-				continue
-			}
-			c := dropOpsFor(cfg, q)
-			if v2, ex2, ok := fails(q, c); ok {
-				p, cfg, v, ex = q, c, v2, ex2
-				changed = true
-			}
-		}
-		for i := range p.Deps {
-			q := p.Clone()
-			q.Deps = append(append([]*descriptorpb.FileDescriptorProto{}, q.Deps[:i]...), q.Deps[i+1:]...)
-			if v2, ex2, ok := fails(q, cfg); ok {
-				p, v, ex = q, v2, ex2
-				changed = true
-				break
-			}
-		}
-	}
-
-	// 6. program text: drop top-level blocks of j5s files
-	for changed := true; changed; {
-		changed = false
-		for _, name := range p.FileNames() {
-			if !strings.HasSuffix(name, ".j5s") {
-				continue
-			}
-			blocks := splitTopLevel(p.Files[name])
-			for i := len(blocks) - 1; i >= 1; i-- { // block 0 is the header (package/imports)
+	// steps 5-7 feed each other (a file becomes droppable once the last reference to it is gone):
+	// repeat them until nothing changes
+	for round := 0; round < 3; round++ {
+		before := p.Digest()
+		// 5. program: drop whole files, dependency files, packages
+		for changed := true; changed; {
+			changed = false
+			for _, name := range p.FileNames() {
 				q := p.Clone()
-				nb := append(append([]string{}, blocks[:i]...), blocks[i+1:]...)
-				q.Files[name] = strings.Join(nb, "")
-				if v2, ex2, ok := fails(q, cfg); ok {
-					p, v, ex = q, v2, ex2
-					blocks = nb
+				delete(q.Files, name)
+				q.Packages = packagesWithFiles(q)
+				if len(q.Packages) == 0 {
+					continue
+				}
+				c := dropOpsFor(cfg, q)
+				if v2, ex2, ok := fails(q, c); ok {
+					p, cfg, v, ex = q, c, v2, ex2
 					changed = true
 				}
 			}
+			for i := range p.Deps {
+				q := p.Clone()
+				q.Deps = append(append([]*descriptorpb.FileDescriptorProto{}, q.Deps[:i]...), q.Deps[i+1:]...)
+				if v2, ex2, ok := fails(q, cfg); ok {
+					p, v, ex = q, v2, ex2
+					changed = true
+					break
+				}
+			}
+		}
+
+		// 6. program text: drop top-level blocks of j5s files
+		for changed := true; changed; {
+			changed = false
+			for _, name := range p.FileNames() {
+				if !strings.HasSuffix(name, ".j5s") {
+					continue
+				}
+				blocks := splitTopLevel(p.Files[name])
+				for i := len(blocks) - 1; i >= 1; i-- { // block 0 is the header (package/imports)
+					q := p.Clone()
+					nb := append(append([]string{}, blocks[:i]...), blocks[i+1:]...)
+					q.Files[name] = strings.Join(nb, "")
+					if v2, ex2, ok := fails(q, cfg); ok {
+						p, v, ex = q, v2, ex2
+						blocks = nb
+						changed = true
+					}
+				}
+			}
+		}
+
+		// 7. program text: drop single items (a field line, or a nested brace-balanced block) inside the
+		// remaining blocks, innermost-last order; whatever no longer compiles is simply not kept
+		for changed := true; changed && budget > 0; {
+			changed = false
+			for _, name := range p.FileNames() {
+				if !strings.HasSuffix(name, ".j5s") {
+					continue
+				}
+				items := nestedItems(p.Files[name])
+				for k := len(items) - 1; k >= 0 && budget > 0; k-- {
+					lines := strings.SplitAfter(p.Files[name], "\n")
+					if items[k][1] > len(lines) {
+						continue
+					}
+					q := p.Clone()
+					q.Files[name] = strings.Join(lines[:items[k][0]], "") + strings.Join(lines[items[k][1]:], "")
+					if v2, ex2, ok := fails(q, cfg); ok {
+						p, v, ex = q, v2, ex2
+						changed = true
+						items = nestedItems(p.Files[name])
+						if k > len(items) {
+							k = len(items)
+						}
+					}
+				}
+			}
+		}
+
+		if p.Digest() == before {
+			break
 		}
 	}
 
@@ -210,4 +247,37 @@ func splitTopLevel(src string) []string {
 		blocks = append(blocks, cur)
 	}
 	return blocks
+}
+
+// nestedItems returns [start,end) line ranges of removable items at brace depth >= 1: a line that
+// does not change the depth, or a block from its opening line to its closing line.
+func nestedItems(src string) [][2]int {
+	lines := strings.SplitAfter(src, "\n")
+	var items [][2]int
+	depth := 0
+	var open []int
+	for i, ln := range lines {
+		t := strings.TrimSpace(ln)
+		if t == "" || strings.HasPrefix(t, "package ") || strings.HasPrefix(t, "import ") {
+			continue
+		}
+		d := 0
+		if !strings.HasPrefix(t, "|") && !strings.HasPrefix(t, "//") {
+			d = strings.Count(ln, "{") - strings.Count(ln, "}")
+		}
+		switch {
+		case d == 0 && depth >= 1:
+			items = append(items, [2]int{i, i + 1})
+		case d > 0:
+			open = append(open, i)
+		case d < 0 && len(open) > 0:
+			st := open[len(open)-1]
+			open = open[:len(open)-1]
+			if depth+d >= 1 { // nested block (not a top-level one: those are handled by step 6)
+				items = append(items, [2]int{st, i + 1})
+			}
+		}
+		depth += d
+	}
+	return items
 }
